@@ -2,6 +2,7 @@ mod alloc;
 mod auth;
 mod autoalloc;
 mod stream;
+mod queueids;
 mod sched;
 mod journal;
 mod oracle;
@@ -248,6 +249,10 @@ fn main() {
         }
         "sched" => {
             let code = sched::main(&args[2..]);
+            std::process::exit(code);
+        }
+        "queueids" => {
+            let code = queueids::main(&args[2..]);
             std::process::exit(code);
         }
         "stream" => {
